@@ -175,7 +175,28 @@ type guardKind struct {
 }
 
 // checkGuards records one obligation per required kind: present with the right polarity AND loop variant.
-func checkGuards(c *Ctx, rule, construct string, pos token.Pos, exits []exitPath, kinds []guardKind, variant func(ssa.Value) bool) {
+func checkGuards(c *Ctx, rule, construct string, pos token.Pos, exits []exitPath, kinds []guardKind, variant func(ssa.Value) bool, extra ...guardKind) {
+	// every way out of the walk must be one of the kinds the sibling implementation has too (A9):
+	// an exit that matches no known kind is a stop condition only this reader has
+	var unknown []string
+	for _, e := range exits {
+		known := false
+		for _, f := range e.Facts {
+			for _, k := range append(append([]guardKind{}, kinds...), extra...) {
+				if k.Match(f) {
+					known = true
+				}
+			}
+			// error exits are common to all readers
+			if x, trueNil, ok := nilTest(f.V); ok && x.Type().String() == "error" && trueNil != f.Truth {
+				known = true
+			}
+		}
+		if !known {
+			unknown = append(unknown, c.relPos(e.Pos))
+		}
+	}
+	c.Check(rule, construct+"|no-private-stop-condition", len(unknown) == 0, pos, fmt.Sprintf("exits of the walk that match none of the shared guard kinds %v: %v", kindNames(kinds, extra), unknown))
 	for _, k := range kinds {
 		present, varies := false, false
 		for _, e := range exits {
@@ -197,6 +218,14 @@ func checkGuards(c *Ctx, rule, construct string, pos token.Pos, exits []exitPath
 		}
 		c.Check(rule, construct+"|guard:"+k.Name, present && varies, pos, detail)
 	}
+}
+
+func kindNames(a, b []guardKind) []string {
+	var out []string
+	for _, k := range append(append([]guardKind{}, a...), b...) {
+		out = append(out, k.Name)
+	}
+	return out
 }
 
 func cmpZero(v ssa.Value) (x ssa.Value, op token.Token, ok bool) {
@@ -324,6 +353,9 @@ func c01Guards(c *Ctx, rule string) {
 			return (b.Op == token.EQL && f.Truth) || (b.Op == token.LEQ && f.Truth) || (b.Op == token.GTR && !f.Truth) || (b.Op == token.NEQ && !f.Truth)
 		}},
 		{"data-border", "the walk stops when the closest key is no longer a resource-record key", func(f fact) bool {
+			if b, ok := f.V.(*ssa.BinOp); ok && b.Op == token.LSS && f.Truth && isBuiltinCall(b.X, "len") != nil {
+				return true // found key shorter than the marker
+			}
 			if call := isCallToFunc(f.V, "bytes", "Equal"); call != nil && !f.Truth {
 				for x := range backSlice(call, nil) {
 					if s, ok := stringConst(x); ok && strings.HasPrefix(s, "\x00") {
@@ -333,7 +365,14 @@ func c01Guards(c *Ctx, rule string) {
 			}
 			return false
 		}},
-	}, findVariant)
+	}, findVariant, guardKind{"callback", "stop requested by the method's callback", func(f fact) bool {
+		call, ok := f.V.(*ssa.Call)
+		if !ok {
+			return false
+		}
+		_, isParam := call.Call.Value.(*ssa.Parameter)
+		return isParam && !f.Truth
+	}})
 	// callbacks consulted as exit tests, with which polarity, and with which arguments
 	type cbUse struct {
 		param     *ssa.Parameter
